@@ -274,6 +274,20 @@ type Flow struct {
 	cut     func(*ssa.BasicBlock, int) bool
 	assume  func(ssa.Value) (bool, bool)
 	nonNil  map[ssa.Value]bool
+	// startPred/startSucc: when the flow starts on an edge (the successor of a branch), phis of the start block take the
+	// value of that edge
+	startPred *ssa.BasicBlock
+	startSucc int
+}
+
+// FlowFromEdge starts the flow on the edge from -> from.Succs[succ] (e.g. the taken side of a test): if the successor is a
+// join block, its phis have the values carried by that edge. nonNil lists values known non-nil on that edge.
+func FlowFromEdge(from *ssa.BasicBlock, succ int, cut func(*ssa.BasicBlock, int) bool, nonNil ...ssa.Value) *Flow {
+	m := map[ssa.Value]bool{}
+	for _, v := range nonNil {
+		m[v] = true
+	}
+	return flowFromEdge(from, succ, cut, nil, m)
 }
 
 // FlowFromFacts is FlowFrom with values known to be non-nil on entry to start (e.g. the error whose `!= nil` edge
@@ -306,6 +320,18 @@ func flowFrom(start *ssa.BasicBlock, cut func(*ssa.BasicBlock, int) bool, assume
 
 func flowFromFacts(start *ssa.BasicBlock, cut func(*ssa.BasicBlock, int) bool, assume func(ssa.Value) (bool, bool), nonNil map[ssa.Value]bool) *Flow {
 	f := &Flow{fn: start.Parent(), start: start, Reached: map[*ssa.BasicBlock]bool{start: true}, live: map[flowEdge]bool{}, cut: cut, assume: assume, nonNil: nonNil}
+	return f.run()
+}
+
+func flowFromEdge(from *ssa.BasicBlock, succ int, cut func(*ssa.BasicBlock, int) bool, assume func(ssa.Value) (bool, bool), nonNil map[ssa.Value]bool) *Flow {
+	start := from.Succs[succ]
+	f := &Flow{fn: start.Parent(), start: start, Reached: map[*ssa.BasicBlock]bool{start: true}, live: map[flowEdge]bool{}, cut: cut, assume: assume, nonNil: nonNil,
+		startPred: from, startSucc: succ}
+	return f.run()
+}
+
+func (f *Flow) run() *Flow {
+	cut := f.cut
 	for changed := true; changed; {
 		changed = false
 		for _, b := range f.fn.Blocks {
@@ -340,6 +366,10 @@ func flowFromFacts(start *ssa.BasicBlock, cut func(*ssa.BasicBlock, int) bool, a
 // liveInto: is the i-th predecessor edge of block b live? The start block's predecessors are not.
 func (f *Flow) liveInto(b *ssa.BasicBlock, i int) bool {
 	p := b.Preds[i]
+	if b == f.start && f.startPred != nil && p == f.startPred {
+		// the edge the flow was started on (when the branch has both successors equal, either index)
+		return true
+	}
 	if !f.Reached[p] {
 		return false
 	}
@@ -371,12 +401,12 @@ func (f *Flow) nilness(v ssa.Value, seen map[ssa.Value]bool) int {
 	case *ssa.Phi:
 		res, n := 0, 0
 		for i, e := range x.Edges {
-			if x.Block() != f.start && !f.liveInto(x.Block(), i) {
+			if !f.liveInto(x.Block(), i) {
+				if x.Block() == f.start && f.startPred == nil {
+					// started on a block, not on an edge: values flowing into it from outside are unknown
+					return 0
+				}
 				continue
-			}
-			if x.Block() == f.start && !f.liveInto(x.Block(), i) {
-				// values flowing into the start block from outside are unknown
-				return 0
 			}
 			k := f.nilness(e, seen)
 			if k == 0 {
@@ -399,8 +429,8 @@ func (f *Flow) nilness(v ssa.Value, seen map[ssa.Value]bool) int {
 			_ = al
 			res, n := 0, 0
 			for _, st := range ReachingStores(x) {
-				if !f.Reached[st.Block()] {
-					continue
+				if !f.Reached[st.Block()] && !st.Block().Dominates(f.start) {
+					continue // a store on a path that does not lead through the start of this flow
 				}
 				k := f.nilness(st.Val, seen)
 				if k == 0 || (n > 0 && k != res) {
@@ -446,7 +476,7 @@ func (f *Flow) truth(v ssa.Value, seen map[ssa.Value]bool) (bool, bool) {
 		res, n := false, 0
 		for i, e := range x.Edges {
 			if !f.liveInto(x.Block(), i) {
-				if x.Block() == f.start {
+				if x.Block() == f.start && f.startPred == nil {
 					return false, false
 				}
 				continue
